@@ -448,9 +448,13 @@ func walkAggregation(expr string, n *promParser.AggregateExpr) (src []Source) {
 			s.Aggregation = n
 			s.Operation = "count_values"
 			// Param is the label to store the count value in.
-			s = includeLabel(s, n.Param.(*promParser.StringLiteral).Val)
-			s = guaranteeLabel(s, n.Param.(*promParser.StringLiteral).Val)
-			if n.Without || n.Param.(*promParser.StringLiteral).Val != labels.MetricName {
+			// (the parser accepts a parenthesised literal, `count_values(("x"), foo)`)
+			param, ok := stringLiteralValue(n.Param)
+			if ok {
+				s = includeLabel(s, param)
+				s = guaranteeLabel(s, param)
+			}
+			if n.Without || param != labels.MetricName {
 				// count_values("__name__", ...) by(...) stores the value in the metric name.
 				s = excludeMetricName(s, n)
 			}
@@ -634,7 +638,9 @@ If you're hoping to get instance specific labels this way and alert when some ta
 	case "label_replace", "label_join":
 		// One label added to the results.
 		s.Returns = promParser.ValueTypeVector
-		s = guaranteeLabel(s, n.Args[1].(*promParser.StringLiteral).Val)
+		if dst, ok := stringLiteralValue(n.Args[1]); ok {
+			s = guaranteeLabel(s, dst)
+		}
 
 	case "pi":
 		s.Returns = promParser.ValueTypeScalar
@@ -1089,5 +1095,19 @@ func FindPosition(expr string, within posrange.PositionRange, fn string) posrang
 	return posrange.PositionRange{
 		Start: within.Start + posrange.Pos(idx[0]),
 		End:   within.Start + posrange.Pos(idx[1]-1),
+	}
+}
+
+// stringLiteralValue returns the value of a string literal, looking through any parentheses around it.
+func stringLiteralValue(expr promParser.Expr) (string, bool) {
+	for {
+		switch e := expr.(type) {
+		case *promParser.ParenExpr:
+			expr = e.Expr
+		case *promParser.StringLiteral:
+			return e.Val, true
+		default:
+			return "", false
+		}
 	}
 }
